@@ -71,9 +71,33 @@ def build(spec):
         lines = b.lines + [f"print(a{i} == b{i})" for i in range(len(spec["pairs"]))]
     elif k == "func":
         lines = [spec["setup"], f"print({spec['expr']})"]
+    elif k == "spelled":
+        lines = pair_lines((spec["a"], spec["ra"]), (spec["b"], spec["rb"]), spec["same"])
+        lines += ["print(" + SPELLINGS[spec["sp"]][0].replace("LA", lv.lit(spec["a"])).replace("LB", lv.lit(spec["b"])) + ")"]
     else:
         raise ValueError(k)
     return "\n".join(lines) + "\n" + li.trailer(PID, spec)
+
+
+# the same question written differently: an operand as a literal instead of a name, the answer used as an operand of a
+# further comparison.  (text, what the answer must be given the outcomes `o` of `a == b` and `p` of `b == a`)
+def _neg(o):
+    return ("F",) if o == ("T",) else ("T",) if o == ("F",) else o
+
+
+SPELLINGS = [
+    ("a == LB", lambda o, p: o),
+    ("LA == b", lambda o, p: o),
+    ("LA == LB", lambda o, p: o),
+    ("LA != LB", lambda o, p: _neg(o)),
+    ("(a == b) == true", lambda o, p: o),
+    ("(a == b) == false", lambda o, p: _neg(o)),
+    ("(a != b) == false", lambda o, p: o),
+    ("true == (a == b)", lambda o, p: o),
+    ("(a == b) != (a != b)", lambda o, p: ("T",) if o[0] in "TF" else o),
+    ("(a == b) == (b == a)", lambda o, p: o if o[0] not in "TF" else p if p[0] not in "TF" else ("T",) if o == p else ("F",)),
+    ("(a === b) == (b === a)", None),
+]
 
 
 # ---------------------------------------------------------------------------- outcomes
@@ -182,7 +206,7 @@ def judge(spec, r):
                 if o1[0] != "E" or tuple(o1[1][:2]) != (ka, kb):
                     return False, f"`===` on '{ka}' and '{kb}' must be a diagnostic naming both types, got {o1}"
         return True, ""
-    if k in ("ne", "nref"):
+    if k in ("ne", "nref", "spelled"):
         return True, ""
     if k == "sym":
         o1, o2 = outcome(r, 0), outcome(r, 1)
@@ -408,6 +432,44 @@ def run(ctx, model_ok):
                     tr = {"k": "triple", "vals": [list(vals[rep_idx[x]]) for x in (s, t, u)]}
                     rep.report(("trans",), tr, "a == b and b == c but not a == c")
     ctx.cov["laws"]["transitive_triples_of_shapes"] = ntrans
+
+    # ------------------------------------------------------------------ the same question in other spellings
+    leaf_idx = [i for i, (s, _) in enumerate(vals) if lv.depth(s) == 0 or s in ([], {})]
+    sp_pairs = {(i, j) for i in leaf_idx for j in range(n)} | {(j, i) for i in leaf_idx for j in range(n)}
+    by_shape, by_kind = {}, {}
+    for i, (s, _) in enumerate(vals):
+        by_shape.setdefault(lv.key(s), []).append(i)
+        by_kind.setdefault(lv.kind_of(s), []).append(i)
+    groups = [g for g in by_shape.values() if len(g) >= 2]
+    target = len(sp_pairs) + (10000 if thorough else 1200)
+    while len(sp_pairs) < target:          # mostly pairs that compare to a boolean: one shape twice, or one kind twice
+        c = rng.random()
+        g = rng.choice(groups) if c < 0.45 and groups else rng.choice(list(by_kind.values())) if c < 0.85 else range(n)
+        sp_pairs.add((rng.choice(g), rng.choice(g)))
+    sp_pairs = sorted(sp_pairs)
+    sp_specs = [dict(pspec("spelled", i, j), sp=k) for i, j in sp_pairs for k in range(len(SPELLINGS))]
+    sp_res, dis = run_chunked(ctx, sp_specs, "spellings", model_ok)
+    all_dis += dis
+    ctx.cov["spellings"] = {"pairs": len(sp_pairs), "spellings": [s for s, _ in SPELLINGS], "scripts": len(sp_specs)}
+    for n_, (spec, r) in enumerate(zip(sp_specs, sp_res)):
+        i, j = sp_pairs[n_ // len(SPELLINGS)]
+        text, want_fn = SPELLINGS[spec["sp"]]
+        o = outcome(r, 0)
+        want = want_fn(table[(i, j)], table[(j, i)]) if want_fn else None
+        if want_fn is None:
+            # `===` on non-containers is an error naming both types; on containers both orders agree
+            want = o if o[0] == "E" else ("T",)
+        ctx.dist("spelled:" + text + ":" + o[0])
+        if o != want:
+            key = ("spelled", text)
+            if key in rep.keys or len(rep.keys) >= rep.limit + 4:
+                continue
+            c = core.run_cli(build(spec))
+            ctx.cov["cli_reconfirmed"] += 1
+            if outcome(c, 0) != want:
+                rep.keys.add(key)
+                ctx.violation(f"with a := {lv.lit(spec['a'])} and b := {lv.lit(spec['b'])}, `a == b` is {table[(i, j)]} and `b == a` is "
+                              f"{table[(j, i)]}, so `{text}` must be {want}, but it is {outcome(c, 0)}", build(spec), {"cli": c, "spec": spec})
 
     # ------------------------------------------------------------------ `===` / `!==`
     ref_specs = [pspec("ref", i, j) for i, j in pairs]
